@@ -118,6 +118,17 @@ Theorem C19_name_handdown_refuted :
 Proof. vm_compute. repeat split; discriminate. Qed.
 Print Assumptions C19_name_handdown_refuted.
 
+(* KNOWN FINDING C19-duplicate-keys: two members whose keys are equal: the record keeps one of them, a member of the definition is lost *)
+Theorem C19_duplicate_keys_refuted :
+  let l := ["<";"L";"<";"MDLN";">";"<";"SOFTREV";">";"<";"MDLN";">";">"]%string in
+  let a := AList None [AItem "MDLN"; AItem "SOFTREV"; AItem "MDLN"] in
+  match sfdl_structure (def l) with
+  | Ok (SRec fields) => length fields = 2%nat /\ keys_distinct a = false
+  | _ => False
+  end.
+Proof. vm_compute. repeat split. Qed.
+Print Assumptions C19_duplicate_keys_refuted.
+
 Example C19_layout_sample_in_domain :
   layout_ok [(TOp 60, []); (TWord [76], [GComment [32; 60; 62] 10]); (TWord [88], [GWs 9; GWs 10]); (TOp 62, [])] = true.
 Proof. vm_compute. reflexivity. Qed.
